@@ -17,6 +17,7 @@
      io/brain.py:86-120    _load_probe             io/brain.py:123-158  _load_frame
      core.py:128-168       Frame.__init__ (shape / duplicate checks)
      core.py:1440-1443, 1482-1507  Time.__init__ (step < 0 rejected), Time.from_vect
+     _probes/registry.py:33-34     ProbeRegistry.__getitem__ (as the parameter `registered`)
 
    Conventions.  A configuration is `cfg L` of Model/Config.v (leaves opaque).  What
    Python can ask of a leaf is a Section variable (never an axiom):
@@ -256,12 +257,27 @@ Section Builders.
     ["numx"; "pitch_x"; "numy"; "pitch_y"; "frequency"; "dimensions"; "orientations";
      "shapes"; "dead_elements"; "bandwidth"; "pcs"; "metadata"].
 
+  (* the probe library `_probes.probes` (a Mapping over an OrderedDict of makers), asked
+     `probes[key]` (native.py:205): Some true = the key is registered, Some false = it is
+     not (KeyError), None = the key is not hashable (a YAML sequence or mapping: TypeError).
+     [repair: the registry used to be left out of the model, which answered
+     Ok (SrcLibrary k) for every key] *)
+  Variable registered : cfg L -> option bool.
+
+  (* _probes.probes[key] *)
+  Definition registry_lookup (k : cfg L) : res probe_src :=
+    match registered k with
+    | Some true => Ok (SrcLibrary k)
+    | Some false => Err EKey
+    | None => Err EType
+    end.
+
   (* NB the statement `raise config.InvalidConf(...)` (native.py:203) itself fails:
      arim.config defines no InvalidConf (the class is defined in native.py), so the
      exception that leaves probe_from_conf is AttributeError.  Still a rejection. *)
   Definition probe_source (conf : items (cfg L)) : res probe_src :=
     if has "probe_key" conf && has "probe" conf then Err EAttr
-    else if has "probe_key" conf then k <- getitem "probe_key" conf ;; Ok (SrcLibrary k)
+    else if has "probe_key" conf then k <- getitem "probe_key" conf ;; registry_lookup k
     else p <- getitem "probe" conf ;;
          kw <- as_kwargs p ;;
          _ <- sig_check matrix_required matrix_params kw ;;
@@ -395,10 +411,28 @@ Arguments mkMaterial {L}.
 Definition time_init (start step : Q) (n : nat) : option (Q * Q * nat) :=
   if Qle_bool 0%Q step then Some (start, step, n) else None.
 
-Definition time_of_vect (t : list Q) : option (Q * Q * nat) :=
-  match time_from_vect t with
-  | Some (t0, avg, n) => time_init t0 avg n
-  | None => None
+(* what Time.from_vect answers.  The numbers of the model are exact rationals, so the one
+   answer whose step is not a number has a constructor of its own. *)
+Inductive time_outcome :=
+| TimeAxis (tm : Q * Q * nat)   (* Time(start, step, num), step a number >= 0 *)
+| StepNaN (start : Q)           (* Time(start, nan, 1) *)
+| TimeRejected.                 (* an exception *)
+
+(* Time.from_vect(timevect) for a 1-D timevect (core.py:1497-1507).
+   ONE stored sample [t0]: steps = np.diff = [], avg_step = np.mean([]) = nan (a
+   RuntimeWarning only), np.allclose([], nan) is True (nothing to compare), and in
+   Time.__init__ `nan * 1.0 < 0` is False: the answer is Time(t0, nan, 1), whose samples are
+   [t0].  NO sample: `timevect[0]` raises IndexError.
+   [repair: the one-sample vector used to be answered None, like a rejection] *)
+Definition time_of_vect (t : list Q) : time_outcome :=
+  match t with
+  | [t0] => StepNaN t0
+  | _ =>
+      match time_from_vect t with
+      | Some (t0, avg, n) =>
+          match time_init t0 avg n with Some tm => TimeAxis tm | None => TimeRejected end
+      | None => TimeRejected
+      end
   end.
 
 (* frame_from_conf: frame.time = Time(frame.time.start - instrument_delay, frame.time.step, len(frame.time)) *)
@@ -431,17 +465,40 @@ Record brain_probe := mkBrainProbe {
   bp_dimensions : list (Q * Q * Q);
   bp_frequency : Q }.
 
-(* _load_probe on the nine per-element vectors of exp_data.array (each squeezed to 1-D:
-   a one-element array squeezes to 0-d and is rejected; vectors of different lengths do
-   not broadcast) *)
+(* numpy broadcasting of a squeezed corner vector against the n centres: a vector of n
+   values is used as it is, a vector of ONE value (squeezed to a 0-d scalar) is repeated n
+   times, every other length raises ValueError (operands could not be broadcast) *)
+Definition bcast (n : nat) (l : list Q) : option (list Q) :=
+  if Nat.eqb (List.length l) n then Some l
+  else match l with [x] => Some (repeat x n) | _ => None end.
+
+(* the value a stored corner vector contributes to element i (after broadcasting) *)
+Definition bget (l : list Q) (i : nat) : Q :=
+  match l with [x] => x | _ => nth i l 0%Q end.
+
+(* 2 * np.maximum(np.absolute(p1 - c), np.absolute(p2 - c)) on whole vectors *)
+Definition el_dims (c p1 p2 : list Q) : option (list Q) :=
+  match bcast (List.length c) p1, bcast (List.length c) p2 with
+  | Some a, Some b => Some (map (fun t => let '(c0, a0, b0) := t in el_dim c0 a0 b0) (zip3 c a b))
+  | _, _ => None
+  end.
+
+(* _load_probe on the nine per-element vectors of exp_data.array, each squeezed to 1-D.
+   Found by running the code on every combination of lengths 0..3 (brain.py:96-120):
+   - the three CENTRE vectors must have the same length n (Points.from_xyz asserts equal
+     shapes) and n <> 1 (a one-element vector squeezes to 0-d and len(locations) raises
+     TypeError); n = 0 is accepted: a probe without elements;
+   - each of the six CORNER vectors must have n values or ONE value: the squeezed scalar is
+     broadcast by numpy against the n centres (`el_x1 - locations_x`); any other length
+     raises ValueError.  The dimensions always have n entries since the centres have.
+   [repair: the model used to demand n >= 2 and the same length n of all nine vectors] *)
 Definition load_probe (xc yc zc x1 y1 z1 x2 y2 z2 : list Q) (freq : Q) : option brain_probe :=
   let n := List.length xc in
-  if Nat.leb 2 n && same_len n [yc; zc; x1; y1; z1; x2; y2; z2] then
-    Some (mkBrainProbe (zip3 xc yc zc)
-            (zip3 (map (fun t => let '(c, a, b) := t in el_dim c a b) (zip3 xc x1 x2))
-                  (map (fun t => let '(c, a, b) := t in el_dim c a b) (zip3 yc y1 y2))
-                  (map (fun t => let '(c, a, b) := t in el_dim c a b) (zip3 zc z1 z2)))
-            freq)
+  if negb (Nat.eqb n 1) && same_len n [yc; zc] then
+    match el_dims xc x1 x2, el_dims yc y1 y2, el_dims zc z1 z2 with
+    | Some dx, Some dy, Some dz => Some (mkBrainProbe (zip3 xc yc zc) (zip3 dx dy dz) freq)
+    | _, _, _ => None
+    end
   else None.
 
 Fixpoint nodup_pairs (l : list (Z * Z)) : bool :=
@@ -467,8 +524,10 @@ Section BrainFrame.
     let rx0 := load_indices rx in
     let T := load_timetraces V time_data in
     match time_of_vect time with
-    | None => None
-    | Some tm =>
+    | TimeRejected => None
+    | StepNaN _ => None      (* Time(t0, nan, 1) is built, then Frame.__init__ rejects: the squeezed
+                                timetraces cannot have shape (numtimetraces, 1) with both dimensions >= 2 *)
+    | TimeAxis tm =>
         let '(_, _, numsamples) := tm in
         if Nat.leb 2 (a_rows T) && Nat.leb 2 (a_cols T)
            && Nat.eqb (a_cols T) numsamples
@@ -528,13 +587,26 @@ Definition py_zero : py := PyFloat 0.
 Definition py_known_dataset (c : cfg py) : bool :=
   match c with Leaf (PyStr s) => String.eqb s "examples" | _ => false end.
 
+(* the keys of arim._probes.probes (bristol_ndt.makers); a str key is looked up, any other
+   hashable leaf is simply absent, a sequence or a mapping is not hashable *)
+Definition py_probe_keys : list string :=
+  ["ima_50_MHz_128_1d"; "ima_50_MHz_64_1d"; "ima_25_MHz_64_1d"; "sonaxis_150_MHz_110_1d";
+   "ima_100_MHz_128_1d"].
+Definition py_registered (c : cfg py) : option bool :=
+  match c with
+  | Leaf (PyStr s) => Some (mem s py_probe_keys)
+  | Leaf (PyList _) => None
+  | Leaf _ => Some false
+  | Map _ => None
+  end.
+
 Definition py_material_from_conf := material_from_conf py py_is_none py_is_float.
 Definition py_examination_object_from_conf := examination_object_from_conf py py_is_none py_is_float.
-Definition py_probe_from_conf := probe_from_conf py py_leaf_has.
+Definition py_probe_from_conf := probe_from_conf py py_leaf_has py_registered.
 Definition py_grid_from_conf := grid_from_conf py py_zero.
 Definition py_grid_axes_from_conf := grid_axes_from_conf py py_leaf_seq py_zero.
 Definition py_frame_from_conf (load : frame_src py -> res unit) :=
-  frame_from_conf py py_is_none py_is_float py_leaf_has py_known_dataset load.
+  frame_from_conf py py_is_none py_is_float py_leaf_has py_registered py_known_dataset load.
 
 (* abbreviations for writing example configurations *)
 Definition pyF (eighths : Z) : cfg py := Leaf (PyFloat eighths).
